@@ -101,7 +101,7 @@ var damageTokens = strings.Fields(`func return if else for range switch case def
  x.y x[0] x[:] x[1:2] f() &T{} *T []int{} map[string]int{} func(){} -1 ^1 !x`)
 
 // Damage is one way in which source text reaching an entry point goes bad.
-var damageKinds = []string{"none", "torn-save", "spliced-overwrite", "flipped-byte", "garbage-tail", "token-insert", "token-delete", "token-dup", "invalid-utf8", "nul-byte", "long-ident", "deep-nesting", "line-shuffle", "int-literal-swap", "clause-prefix"}
+var damageKinds = []string{"none", "torn-save", "spliced-overwrite", "flipped-byte", "garbage-tail", "token-insert", "token-delete", "token-dup", "invalid-utf8", "nul-byte", "long-ident", "deep-nesting", "line-shuffle", "int-literal-swap", "clause-prefix", "shebang"}
 
 var clausePrefixes = []string{"& ", "* ", "- ", "! ", "( ", "+ ", "x. ", "[]", "func ", "go ", "= ", ", ", ": ", "^", "<-", "1 + ", "a, b := ", "return ", "{ ", "} ", "package ", "import ", "var x = ", "\"s\" ", "'c' ", "// c\n/* c */ & ", "...", "&&"}
 
@@ -112,6 +112,16 @@ func damage(r *core.PRNG, kind string, src, other []byte) []byte {
 	switch kind {
 	case "none":
 		return src
+	case "shebang":
+		// an interpreter line in front, with or without the rest of the file (or even a newline)
+		sb := core.Pick(r, []string{"#!/usr/bin/env goat", "#!", "#!/bin/goat -x", "#", "#!\r", "#! goat\x00"})
+		switch r.Intn(4) {
+		case 0:
+			return []byte(sb)
+		case 1:
+			return append([]byte(sb), src...)
+		}
+		return append([]byte(sb+"\n"), src...)
 	case "clause-prefix":
 		// something in front of (or instead of the name behind) the package clause
 		pre := core.Pick(r, clausePrefixes)
